@@ -1,6 +1,7 @@
 mod alloc_count;
 mod codec;
 mod hist;
+mod ks;
 mod provider;
 mod storage;
 mod treemath;
@@ -15,6 +16,7 @@ fn main() {
         "treemath" => treemath::run(),
         "codec" => codec::run(),
         "hist" => hist::run(),
+        "ks" => ks::run(),
         _ => {
             eprintln!("usage: mlsh <treemath|...>");
             2
